@@ -192,7 +192,9 @@ def matrix_to_quat(R):
 class Ctx:
     """evaluation context: engine data plus flags raised while evaluating"""
 
-    def __init__(self, X, masses, charges, cell):
+    def __init__(self, X, masses, charges, cell, names=None, files=None):
+        self.names = names or {}     # (resid, atom name, segid) -> 0-based atom index
+        self.files = files or {}     # file name -> content (vectorFile of dihedralPC)
         self.X = np.asarray(X, float)
         self.m = np.asarray(masses, float)
         self.q = np.asarray(charges, float)
@@ -666,7 +668,100 @@ def _euler(blk, ctx):
     return (DEG * math.atan2(R[2, 1], R[2, 2]), DEG * math.asin(s), DEG * math.atan2(R[1, 0], R[0, 0]))
 
 
+def _dihedral_points(ctx, p1, p2, p3, p4):
+    """same construction as c_dihedral for four points"""
+    a = ctx.minimage(p1 - p2)
+    b2 = ctx.minimage(p3 - p2)
+    d = ctx.minimage(p4 - p3)
+    e = unit(b2)
+    u = a - float(a @ e) * e
+    w = d - float(d @ e) * e
+    x = float(u @ w)
+    y = float(e @ np.cross(u, w))
+    if math.hypot(x, y) < 1e-8 * float(a @ a) ** 0.5 * float(d @ d) ** 0.5:
+        ctx.flag("dihedral with collinear atoms")
+    return math.atan2(y, x)
+
+
+def _residues(blk):
+    a, b = G_range(tget(blk, "residueRange"))
+    return list(range(a, b + 1)), tget(blk, "psfSegID", "MAIN").strip()
+
+
+def G_range(s):
+    a, b = s.strip().split("-")
+    return int(a), int(b)
+
+
+def _named(ctx, resid, name, seg):
+    k = ctx.names.get((resid, name, seg))
+    if k is None:
+        raise KeyError("atom %s of residue %d in segment %s" % (name, resid, seg))
+    return ctx.X[k]
+
+
+def c_alpha(blk, ctx):
+    """manual eq. 'colvars_alpha': (1-C)/(N-1) sum angf(CA_n, CA_n+1, CA_n+2) + C/(N-3) sum hbf(O_n, N_n+4)
+    over the N+1 residues of residueRange; angf = (1 - t^2)/(1 - t^4), t = (theta - theta0)/tol;
+    hbf = the hBond switching function (cutoff 3.3, exponents 6 and 8 by default)"""
+    res, seg = _residues(blk)
+    C = float(tget(blk, "hBondCoeff", 0.5))
+    th0 = float(tget(blk, "angleRef", 88.0))
+    tol = float(tget(blk, "angleTol", 15.0))
+    hb = [("cutoff", tget(blk, "hBondCutoff", "3.3")), ("expNumer", tget(blk, "hBondExpNumer", "6")),
+          ("expDenom", tget(blk, "hBondExpDenom", "8"))]
+    N = len(res) - 1
+    val = 0.0
+    if C < 1.0:
+        s = 0.0
+        for i in range(len(res) - 2):
+            a, b, c = (_named(ctx, res[i + k], "CA", seg) for k in range(3))
+            th = _angle_deg(ctx, ctx.minimage(a - b), ctx.minimage(c - b))
+            t = (th - th0) / tol
+            if abs(abs(t) - 1.0) < 1e-6:
+                ctx.flag("alpha angle score at its removable singularity")
+                s += 0.5
+            else:
+                s += (1.0 - t ** 2) / (1.0 - t ** 4)
+        val += (1.0 - C) / (N - 1) * s
+    if C > 0.0:
+        s = 0.0
+        for i in range(len(res) - 4):
+            o = _named(ctx, res[i], "O", seg)
+            n = _named(ctx, res[i + 4], "N", seg)
+            s += _switch(ctx, ctx.minimage(n - o), hb, 3.3, 6, 8)
+        val += C / (N - 3) * s
+    return [val]
+
+
+def c_dihedralpc(blk, ctx):
+    """xi = sum_n k_{4n-3} cos(psi_n) + k_{4n-2} sin(psi_n) + k_{4n-1} cos(phi_{n+1}) + k_{4n} sin(phi_{n+1});
+    psi_n = N_n-CA_n-C_n-N_{n+1}, phi_{n+1} = C_n-N_{n+1}-CA_{n+1}-C_{n+1} (Ramachandran angles);
+    coefficients: column vectorNumber of the Carma-style vectorFile"""
+    res, seg = _residues(blk)
+    fname = tget(blk, "vectorFile").strip()
+    col = int(tget(blk, "vectorNumber"))
+    if fname not in ctx.files:
+        ctx.nomodel("vector file not available to the model")
+        return [0.0]
+    k = [float(line.split()[col - 1]) for line in ctx.files[fname].splitlines() if len(line) >= 2]
+    if len(k) != 4 * (len(res) - 1):
+        ctx.nomodel("wrong number of coefficients")
+        return [0.0]
+    val = 0.0
+    for n in range(len(res) - 1):
+        N0, CA0, C0 = (_named(ctx, res[n], a, seg) for a in ("N", "CA", "C"))
+        N1, CA1, C1 = (_named(ctx, res[n + 1], a, seg) for a in ("N", "CA", "C"))
+        psi = _dihedral_points(ctx, N0, CA0, C0, N1)
+        phi = _dihedral_points(ctx, C0, N1, CA1, C1)
+        val += k[4 * n] * math.cos(psi) + k[4 * n + 1] * math.sin(psi) + k[4 * n + 2] * math.cos(phi) \
+            + k[4 * n + 3] * math.sin(phi)
+    return [val]
+
+
 COMPONENTS = {
+    "alpha": c_alpha,
+    "dihedralPC": c_dihedralpc,
     "distance": c_distance,
     "distanceZ": c_distance_z,
     "distanceXY": c_distance_xy,
@@ -729,8 +824,8 @@ class ColvarModel:
     def component_types(self):
         return [c for c, _ in self.comps]
 
-    def evaluate(self, X, masses, charges, cell=None):
-        ctx = Ctx(X, masses, charges, cell)
+    def evaluate(self, X, masses, charges, cell=None, names=None, files=None):
+        ctx = Ctx(X, masses, charges, cell, names, files)
         total = None
         parts = []
         for ctype, blk in self.comps:
